@@ -16,23 +16,31 @@ From FB Require Import Model.Readdir Proofs.Readdir Proofs.ReaddirStep Proofs.Re
 Import ListNotations.
 Local Open Scope N_scope.
 
-(* The statement as given: every size only has to hold the next entry.  The faithful model
-   REFUTES it: when the getdents64 batch holds only "." / ".." records the reply is empty, which the
-   client reads as end of directory (reproduced on the real code, known finding). *)
-Definition C16_full : Prop := C16_full_stmt.
-Theorem C16_refuted : ~ C16_full.
-Proof. exact C16_full_refuted. Qed.
+(* [c_rx C : rfixes] records which of the two proposed repairs of do_readdir the source tree contains
+   (re-read loop for dots-only batches; scan buffer of max(size, 4096)); props/c16.py reads it from the
+   source on every run and the tie validates it.  The current tree has none ([no_rfixes]). *)
 
-(* Proved part: exactly-once for every size that lets the host batch reach the next visible entry
-   ([step_ok]: host records of the "."/".." entries in front of it + its own record fit, and the
-   reply holds its fuse_dirent).  The replies are all successful, their concatenation is exactly
+(* The statement as given: every size only has to hold the next entry.  For the current tree the
+   faithful model REFUTES it: when the getdents64 batch holds only "." / ".." records the reply is
+   empty, which the client reads as end of directory (reproduced on the real code, known finding). *)
+Definition C16_full (X : rfixes) : Prop := C16_full_stmt X.
+Theorem C16_refuted : ~ C16_full no_rfixes.
+Proof. exact C16_full_refuted. Qed.
+(* On a tree with the re-read loop it holds outright (seekable hosts). *)
+Theorem C16_full_when_fixed : forall X, rx_refill X = true -> C16_full X.
+Proof. exact C16_full_fixed. Qed.
+
+(* Proved part, any tree: exactly-once for every size that is adequate for the tree ([size_ok]: on the
+   current tree [step_ok] - host records of the "."/".." entries in front of the next visible entry + its
+   own record fit, and the reply holds its fuse_dirent; on a tree with the re-read loop just "holds the
+   next entry").  The replies are all successful, their concatenation is exactly
    the visible entries from the resume point, in order, and the last reply is empty. *)
 Theorem C16_exactly_once_partial : forall plan H C pre rest st off plus,
   good_dir (pre ++ rest) -> seekable H (pre ++ rest) -> lookups_ok H (pre ++ rest) ->
   wrap_total (c_wrap C) -> InvSt (pre ++ rest) st ->
   (c_noopendir C = false -> forall m, In m plan -> hs_open (st_h st (ms_handle m)) = true) ->
   off_at pre off ->
-  plan_ok step_ok H C (pre ++ rest) st off plus plan ->
+  plan_ok (size_ok (c_rx C)) H C (pre ++ rest) st off plus plan ->
   (length (visible rest) < length plan)%nat ->
   exists replies,
     listing H C (pre ++ rest) st off plus plan = map ROk (replies ++ [[]]) /\
@@ -60,16 +68,17 @@ Theorem C16_resume_safety : forall plan H C pre rest st off plus replies,
   exists s, map (mkd H (c_wrap C) plus) (visible rest) = concat replies ++ s.
 Proof. exact listing_prefix. Qed.
 
-(* the chunking function itself (this is what the tie compares with the real replies) *)
-Theorem C16_reply_exact : forall H C pre rest st r,
+(* the chunking function itself (this is what the tie compares with the real replies): the reply is the
+   visible part of the batch [batchf] (one getdents64; plus the re-read loop on a repaired tree) cut to the
+   reply size - or the batch's error *)
+Theorem C16_reply_exact : forall H C pre rest st r B,
   good_dir (pre ++ rest) -> seekable H (pre ++ rest) -> InvSt (pre ++ rest) st ->
   lookups_ok H (pre ++ rest) -> wrap_total (c_wrap C) ->
   (c_noopendir C = false -> hs_open (st_h st (r_handle r)) = true) ->
   off_at pre (r_offset r) -> r_size r <> 0 ->
-  match rest with e :: _ => host_reclen e <= r_size r | [] => True end ->
+  batchf (c_rx C) (r_size r) rest = ROk B -> (forall e, In e B -> In e rest) ->
   fst (step H C (pre ++ rest) st r) =
-  ROk (map (mkd H (c_wrap C) (r_plus r))
-           (take_fit (dirent_size (r_plus r)) (r_size r) (visible (take_fit host_reclen (r_size r) rest)))).
+  ROk (map (mkd H (c_wrap C) (r_plus r)) (take_fit (dirent_size (r_plus r)) (r_size r) (visible B))).
 Proof. exact step_resume. Qed.
 
 (* no reply exceeds the requested size: unconditional (any state, request, host) *)
@@ -133,8 +142,8 @@ Proof. exact listing_prefix_any_host. Qed.
    second reason, reproduced on the real code over a FUSE mount with cookies above i64::MAX (known
    finding): the scan re-reads from the start with the client's size and fails with EINVAL on an
    earlier record that does not fit. *)
-Definition C16_full_any_host : Prop := C16_full_any_host_stmt.
-Theorem C16_refuted_any_host : ~ C16_full_any_host.
+Definition C16_full_any_host (X : rfixes) : Prop := C16_full_any_host_stmt X.
+Theorem C16_refuted_any_host : ~ C16_full_any_host no_rfixes.
 Proof. exact C16_full_any_host_refuted. Qed.
 
 (* PseudoFs (index offsets), also when reached through the VFS *)
@@ -155,7 +164,7 @@ Proof. exact pseudo_size. Qed.
    and the listing is the expected one; the refutation witness is the same directory with size 32 *)
 Example C16_nonvacuous :
   good_dir w_dir /\ seekable w_host w_dir /\ lookups_ok w_host w_dir /\ InvSt w_dir (init_state [1]) /\
-  plan_ok step_ok w_host w_cfg w_dir (init_state [1]) 0 false w_plan_ok /\
+  plan_ok (size_ok no_rfixes) w_host w_cfg w_dir (init_state [1]) 0 false w_plan_ok /\
   listing w_host w_cfg w_dir (init_state [1]) 0 false w_plan_ok = [ROk [mk_dirent 7 2 8 [97] 0]; ROk []].
 Proof.
   exact (conj w_good (conj w_seekable (conj w_lookups (conj w_inv (conj w_plan_ok_holds w_listing_value))))).
@@ -174,6 +183,14 @@ Proof.
   split; [split; [reflexivity|intros c; cbn; destruct (c =? 0); auto]|vm_compute; reflexivity].
 Qed.
 
+(* the two refutation witnesses evaluated on a repaired tree: both listings are complete *)
+Example C16_fixed_tree_witnesses :
+  listing w_host w_cfg_fixed w_dir (init_state [1]) 0 false w_plan = [ROk [mk_dirent 7 2 8 [97] 0]; ROk []] /\
+  listing f_host (mk_cfg true (fun i => ROk i) all_rfixes) f_dir (init_state []) 0 false f_plan
+  = [ROk [mk_dirent 7 9223372036854775900 8 (repeat 120 100) 0]; ROk [mk_dirent 7 9223372036854775901 8 [97] 0];
+     ROk [mk_dirent 7 9223372036854775902 8 [98] 0]; ROk []].
+Proof. exact (conj w_listing_fixed f_listing_fixed). Qed.
+
 Example C16_pseudo_nonvacuous :
   psizes_ok ([] ++ [([97], 5); ([98; 99], 6)]) false 0 [32; 32; 32] /\
   plisting [([97], 5); ([98; 99], 6)] false 0 [32; 32; 32]
@@ -181,6 +198,7 @@ Example C16_pseudo_nonvacuous :
 Proof. split; [cbn; repeat split; try discriminate; cbv; discriminate|reflexivity]. Qed.
 
 Print Assumptions C16_refuted.
+Print Assumptions C16_full_when_fixed.
 Print Assumptions C16_exactly_once_partial.
 Print Assumptions C16_listing_content.
 Print Assumptions C16_resume_safety.
